@@ -92,7 +92,7 @@ BAD_STRINGS = {
     "enable": [["12"], ["FURB12"], ["abcd123"], ["#"], ["FURB١٢٣"], ["123\n"], ["AB123"], ["ABCDE123"], ["furb123"], [""], ["1234"], [1000], [-1], [1.5], [True], [[1]]],
     "ignore": [["x"], ["FURB123 "], [12]],
     "disable": [["FURB"], ["٣٣٣"]],
-    "python_version": ["3", "3.x", "²³.1", "3.10.1", "", ".", "3.", "٣.١٠", "3.-1", " 3.8", "3.½"],
+    "python_version": ["3", "3.x", "²³.1", "3.10.1", "", ".", "3.", "٣.١٠", "3.-1", " 3.8", "3.½", "3.9\n", "3.9 ", "\n3.9", "3.9\r", "3\n.9", "+3.9", "3.+9", "3_0.9", "3.9\x0c"],
     "format": ["json", "", "GitHub"],
     "sort_by": ["file", ""],
     "amend": [
@@ -167,7 +167,7 @@ BAD_VALUES = {
     "--enable": ["x", "100,,101"],
     "--disable": ["FURB12"],
     "--config-file": ["missing.toml", ".", "", "f.py/x"],
-    "--python-version": ["3", "²³.1", "3.x", "3.10.1", "", "٣.٨", "3.⅕"],
+    "--python-version": ["3", "²³.1", "3.x", "3.10.1", "", "٣.٨", "3.⅕", "3.9\n", "3.9 ", "\n3.9", " 3.9", "3.9\r", "+3.9", "3.+9", "3_0.9", "3.9\x0c"],
     "--format": ["json", ""],
     "--sort": ["code", ""],
 }
@@ -256,6 +256,35 @@ def cli_confirm(d: Path, idx: int, argv: list[str], cfg: bytes | None) -> dict[s
     (sub / "a.py").write_text("x = 1\n")
     rc, out, err = core.refurb_cli(argv, cwd=sub, timeout=120)
     return {"argv": argv, "config_bytes": None if cfg is None else cfg.decode("latin-1"), "rc": rc, "stdout": out[:500], "stderr": err[-700:]}
+
+
+def malformed_python_version(argv: list[str], raw: bytes | None) -> str | None:
+    """the python version the settings would be built from, if it is not `<decimal digits>.<decimal digits>` (harness's own
+    statement of 'malformed'; deliberately not stricter than what refurb accepts today: any str.isdecimal() digits)"""
+    vals = []
+    opts = argv[: argv.index("--")] if "--" in argv else argv
+    i = 0
+    while i < len(opts):  # an option that takes a value consumes the next argument whatever it looks like
+        if opts[i] in VALUE_OPTS:
+            if opts[i] == "--python-version" and i + 1 < len(opts):
+                vals.append(opts[i + 1])
+            i += 2
+        else:
+            i += 1
+    if not vals and raw and "--config-file" not in opts:
+        try:
+            import tomllib
+
+            v = tomllib.loads(raw.decode("utf-8")).get("tool", {}).get("refurb", {}).get("python_version")
+            if isinstance(v, str):
+                vals.append(v)
+        except Exception:  # noqa: BLE001
+            return None
+    for v in vals[-1:]:
+        parts = v.split(".")
+        if not (len(parts) == 2 and all(p.isdecimal() for p in parts)):
+            return v
+    return None
 
 
 def clean_failure(v: dict[str, Any]) -> bool:
@@ -349,6 +378,13 @@ def run(ctx) -> None:
                     dirty[key] = (sig, argv, raw, impl[i])
             elif impl[i]["r"] == "refurb" and "\n" in impl[i]["msg"] and not any("\n" in a for a in argv) and b"\\n" not in (raw or b""):
                 res.violate("a refurb: error message spans several lines", {"kind": "multiline-message", "argv": argv}, {"argv": argv, "msg": impl[i]["msg"]})
+            elif impl[i]["r"] == "ok" and impl[i]["v"].get("python_version") is not None and (bad_pv := malformed_python_version(argv, raw)) is not None:
+                res.violate(
+                    f"a malformed python version {bad_pv!r} is accepted (settings are returned, no refurb: error)",
+                    {"kind": "malformed-accepted", "option": "python_version", "shape": "trailing-newline" if bad_pv.endswith("\n") else "other"},
+                    {"argv": argv, "config_bytes": None if raw is None else raw.decode("latin-1"), "python_version": impl[i]["v"].get("python_version"),
+                     "required": "refurb: error and exit status 1 (a version is two runs of decimal digits separated by one dot, nothing else)"},
+                )
             elif impl[i]["r"] == "ok" and not impl[i]["v"]["load_all_str"]:
                 # a non-string slipped into `load`: only importing it (a real run) shows the crash
                 sig = {"site": "settings.parse_config_file", "key": "load", "outcome": "accepted-non-string"}
